@@ -813,7 +813,17 @@ func c14lane(c *Check, rng *rand.Rand, lane, steps int, hooks, mode string) {
 			}
 			if nref2 := c14interpret(nt2, both); nref2 != nil {
 				nt.Install(env.Cl)
-				time.Sleep(time.Duration(300+rng.Intn(900)) * time.Millisecond)
+				if rng.Intn(3) > 0 {
+					// the reply carrying the intermediate description is written ~0.9 s late, so
+					// that it reaches the proxy together with the next probe's reply (the final
+					// description): two different usable descriptions within one table tick
+					env.Cl.DelayProbes(1, time.Duration(850+rng.Intn(120))*time.Millisecond)
+					for i := 0; i < 400 && env.Cl.ProbesServed() < 1; i++ {
+						time.Sleep(5 * time.Millisecond)
+					}
+				} else {
+					time.Sleep(time.Duration(300+rng.Intn(900)) * time.Millisecond)
+				}
 				nt, nref, kind = nt2, nref2, kind+"+"+kind2+"(rapid)"
 			} else {
 				gen.cur = saved
